@@ -26,6 +26,16 @@ def make_tables(rng, join=False, header_p=0.5, **kw):
                 for j in range(len(r)):
                     if rng.random() < 0.6:
                         r[j] = rng.choice(vals)
+    if join and A and B and A[0] and B[0] and rng.random() < 0.15:
+        # None as a join key on both sides (list / pandas / sqlite NULL): the leading A records and one or two B records share it
+        ja = rng.choice([0, rng.randrange(len(A[0]))])
+        jb = rng.choice([0, rng.randrange(len(B[0]))])
+        for r in A[:rng.choice([1, 1, 2])]:
+            if len(r) > ja:
+                r[ja] = None
+        for r in rng.sample(B, min(len(B), rng.choice([1, 2]))):
+            if len(r) > jb:
+                r[jb] = None
     if rng.random() < header_p:
         wa = len(A[0]) if A else rng.randrange(1, 4)
         a_names = gq.gen_names(rng, wa)
@@ -230,6 +240,17 @@ def run_case_py(ns, case, **kw):
         noise_counter[0] += 1
         try:
             ns.rbql.query_table(PY_NOISE_QUERIES[(h // 3) % len(PY_NOISE_QUERIES)], [list(r) for r in case['A']], [], [], None if case['B'] is None else [list(r) for r in case['B']], case['a_names'], case['b_names'])
+        except Exception:
+            noise_counter[1] += 1
+    elif h % 3 == 1 and not kw.get('no_history') and case['a_names'] is not None and len(case['a_names']) > 1 and all(len(r) == len(case['a_names']) for r in case['A']):
+        # history of another kind: the very same query TEXT over the same data with the columns (and their names) in another order,
+        # so that anything remembered per query text (translated code, variable bindings, header infos) would be stale now
+        perm = list(range(len(case['a_names'])))
+        perm = perm[1:] + perm[:1] if (h // 3) % 2 else perm[::-1]
+        noise_counter[0] += 1
+        try:
+            ns.rbql.query_table(qtext, [[r[j] for j in perm] for r in case['A']], [], [], None if case['B'] is None else [list(r) for r in case['B']], [case['a_names'][j] for j in perm], case['b_names'], [],
+                                kw.get('normalize', True), kw.get('init_code', ''))
         except Exception:
             noise_counter[1] += 1
     kw.pop('no_history', None)
